@@ -3,7 +3,7 @@
    regenerated from the source); they are compared with the real lexer and parser on every run.
    Statements only. *)
 From Coq Require Import List NArith Bool String.
-From FS Require Import lib.Str lib.Res gen.OpsGen gen.PipeGen model.Lexer model.Expr model.Parser proofs.LexerProofs proofs.ExprProofs.
+From FS Require Import lib.Str lib.Res gen.OpsGen gen.PipeGen model.Lexer model.Expr model.Parser proofs.LexerProofs proofs.ExprProofs proofs.ParserTotal.
 Import ListNotations.
 
 (* the lexer terminates on every argument vector: the number of next_lexem iterations is bounded by
@@ -13,6 +13,23 @@ Theorem C10_lexer_total : forall parts n, (lex_fuel parts <= n)%nat -> lex_with 
 Proof. exact lex_fuel_sufficient. Qed.
 Theorem C10_lexer_output_bounded : forall parts, (List.length (lex parts) <= total_chars parts + List.length parts)%nat.
 Proof. exact lex_length. Qed.
+
+(* the parser never panics, hangs or runs out of its own fuel: for EVERY token list and every argument
+   vector the model of Parser::parse ends in Ok (a query) or Exit2 (a diagnostic, status 2).  The
+   proof covers every `unwrap`, every `drop_lexem` index decrement, `fields[idx - 1]` in ORDER BY and
+   every loop of parser.rs as mirrored in model/Parser.v *)
+Theorem C10_parser_total_tokens : forall toks, benign (parse_tokens toks).
+Proof. exact parse_tokens_total. Qed.
+Theorem C10_parser_total : forall parts, benign (parse parts).
+Proof. exact parse_total. Qed.
+(* the expression grammar consumes at least one token per successful parse, never moves the index
+   backwards and never returns the "no expression" value the callers unwrap, with fuel linear in the
+   number of remaining tokens *)
+Theorem C10_parse_expr_total : forall T k st, (16 * (List.length T - idx st) + 24 <= k)%nat ->
+  match parse_expr T k st with
+  | Ok (r, st') => (idx st <= idx st')%nat /\ r <> ROk None /\ (forall e, r = ROk (Some e) -> (idx st < idx st')%nat)
+  | _ => False end.
+Proof. exact parse_expr_total. Qed.
 
 (* the exit statuses of the source *)
 Theorem C10_statuses : status_no_errors = 0%N /\ status_some_errors = 1%N /\ status_parse_error = 2%N /\ status_error_exit = 2%N.
@@ -30,5 +47,8 @@ Proof. vm_compute. reflexivity. Qed.
 
 Print Assumptions C10_lexer_total.
 Print Assumptions C10_lexer_output_bounded.
+Print Assumptions C10_parser_total_tokens.
+Print Assumptions C10_parser_total.
+Print Assumptions C10_parse_expr_total.
 Print Assumptions C10_statuses.
 Print Assumptions C10_former_crashes_are_parse_errors.
